@@ -22,6 +22,8 @@ VARIANTS = {
     "sched0": {"sut": ["-O0", "-fsanitize=thread", "-fsanitize-coverage=trace-pc"], "rt": ["-O2"], "link": [], "defs": []},
     # the other choice a platform may make for plain char (ARM, PowerPC): the same simulators with -funsigned-char on every translation unit
     "plainuc": {"sut": ["-O2", "-funsigned-char", "-fsanitize-coverage=trace-pc"], "rt": ["-O2", "-funsigned-char"], "link": [], "defs": []},
+    # a release-style build as most users ship it: -O2 and NDEBUG (everything wrapped in assert() disappears)
+    "plainrel": {"sut": ["-O2", "-DNDEBUG", "-fsanitize-coverage=trace-pc"], "rt": ["-O2"], "link": [], "defs": []},
     # reach measurement only (tools/coverage.py): gcov counters on the library code, never used by a registered check
     "cov": {"sut": ["-O0", "--coverage", "-fsanitize-coverage=trace-pc"], "rt": ["-O2"], "link": ["--coverage"], "defs": []},
     "schedcov": {"sut": ["-O0", "--coverage", "-fprofile-update=single", "-fsanitize=thread", "-fsanitize-coverage=trace-pc"], "rt": ["-O2"], "link": ["--coverage"], "defs": ["-DSIM_GCOV"]},
